@@ -427,6 +427,6 @@ theorem external_valid_name_not_dot_segment (name : Bytes) (hn : ∀ c ∈ name,
 example : validName? C03.kidPatternRx C03.validateKIDRefusedNames [46, 46, 35] = some true ∧ (∀ c ∈ [46, 46, 35], c < 256) := by decide
 
 example : externalTarget [47, 98, 97, 115, 101] [46, 46, 35] =
-    [47, 115, 101, 99, 114, 101, 116, 115, 47, 46, 46, 37, 50, 53, 50, 51] := by decide   -- "/base" + "..#" -> "/secrets/..%2523"
+    [47, 98, 97, 115, 101, 47, 115, 101, 99, 114, 101, 116, 115, 47, 46, 46, 37, 50, 53, 50, 51] := by decide   -- "/base" + "..#" -> "/base/secrets/..%2523"
 
 end Nuts.C03.Props
